@@ -27,12 +27,17 @@ def K(n):
     return ("K", n)
 
 
+def nil_subst(repo: Repo) -> Dict[Term, Term]:
+    """Inside the queue the empty-slot marker -1 may be spelt c.NIL (when that constant is -1): read it as the number."""
+    return {("K", "NIL"): ("const", -1)} if repo.constants.get("NIL") == -1 else {}
+
+
 def heap_walks(repo: Repo) -> Dict[str, Walker]:
     out = {}
     for m in ("__init__", "is_full", "is_empty", "dad", "left_son", "right_son", "go_up", "go_down",
               "insert", "remove", "update"):
         fi = repo.need_method("Heap", m)
-        out[m] = Walker(repo, fi, self_class="Heap",
+        out[m] = Walker(repo, fi, self_class="Heap", subst=nil_subst(repo),
                         inline=lambda f: f.cls == "Heap" and f.name.startswith("_") and not f.name.startswith("__"))
     return out
 
@@ -233,7 +238,7 @@ def check_heap(rep, repo: Repo, pre: str = "") -> None:
     for name in ("go_up", "go_down"):
         for pol in ("min", "max"):
             SP[(name, pol)] = Walker(repo, repo.need_method("Heap", name), self_class="Heap", inline=helper,
-                                     subst={POLICY: ("const", pol)})
+                                     subst={POLICY: ("const", pol), **nil_subst(repo)})
 
     # ---- H1 mirror -----------------------------------------------------------
     def mirror_sig(w: Walker, pol: str):
@@ -542,22 +547,28 @@ def check_heap(rep, repo: Repo, pre: str = "") -> None:
                "the sift/insert must see the new cost")
     init = W["__init__"]
     cinit = [e for e in init.events if e.kind == "store" and e.target == COLOR]
-    def filled(v, n):
-        """(element value, length term ok?) for `[val for _ in range(n)]` and `[val] * n` / `n * [val]`."""
+    size_st = [e for e in init.events if e.kind == "store" and e.target == ("attr", SELF, "size")]
+
+    def filled(v, n, seq=0):
+        """(element value, length term ok?) for `[val for _ in range(n)]` and `[val] * n` / `n * [val]`; the capacity may
+        be read back from `self.size` once the argument has been stored there."""
+        ns = [n]
+        if len(size_st) == 1 and size_st[0].value == n and not size_st[0].guards and size_st[0].seq < seq:
+            ns.append(("attr", SELF, "size"))
         if v[0] == "listcomp" and len(v[2]) == 1 and not v[2][0][2]:
-            return v[1], v[2][0][0] == ("call", ("builtin", "range"), (n,), ())
+            return v[1], v[2][0][0] in [("call", ("builtin", "range"), (x,), ()) for x in ns]
         if v[0] == "bin" and v[1] == "*":
             for lst, k in ((v[2], v[3]), (v[3], v[2])):
                 if lst[0] == "alloc" and lst[1] == "list" and len(lst[2]) == 1 and lst[2][0][0] != "star":
-                    return lst[2][0], k == n
+                    return lst[2][0], k in ns
         return None, False
 
-    okw = len(cinit) == 1 and filled(cinit[0].value, ("param", init.entry.params[1]))[0] == K("WHITE")
+    okw = len(cinit) == 1 and filled(cinit[0].value, ("param", init.entry.params[1]), cinit[0].seq)[0] == K("WHITE")
     rep.fn(pre + "H5-init", init.entry, "every element starts WHITE", okw, "color must be initialised to WHITE")
     sized = ("call", ("builtin", "range"), (("param", init.entry.params[1]),), ())
     for fld, val in (("cost", K("FLOAT_MAX")), ("color", K("WHITE")), ("p", ("const", -1)), ("pos", ("const", -1))):
         st = [e for e in init.events if e.kind == "store" and e.target == ("attr", SELF, fld)]
-        ok = len(st) == 1 and filled(st[0].value, ("param", init.entry.params[1])) == (val, True)
+        ok = len(st) == 1 and filled(st[0].value, ("param", init.entry.params[1]), st[0].seq) == (val, True)
         rep.fn(pre + "H-init", init.entry, f"{fld}[] has one slot per element (capacity `size`) initialised to {show(val)}", ok,
                f"{fld} is initialised as '{show(st[0].value) if st else '?'}' over '{show(st[0].value[2][0][0]) if st and st[0].value[0] == 'listcomp' else '?'}'")
 
